@@ -549,7 +549,7 @@ func main() {
 	r := h.Init("C20")
 	r.Imports = []string{"GU.C20.Model"}
 	r.Rule("six algorithms x histories of 0..4 earlier calculations on the same hasher (success / read error at byte k / cancellation at byte k) x contents (quick 0..2^16, thorough 0..2^20, buffer boundaries) x chunkings incl. zero-length reads; " +
-		"non-trivial = non-empty history and non-empty content; distinct by (algo, history, content hash). File hashing on the OS and in-memory back ends.")
+		"non-trivial = non-empty history and non-empty content; distinct by (algo, history, content hash). File hashing on the OS and in-memory back ends, and (repeatedly, with reads in between) on the tar and zip archive back ends.")
 	var sc scenario
 	if _, ok := r.ReplayObject(&sc); ok {
 		runScenario(r, sc, false)
@@ -607,5 +607,6 @@ func main() {
 	}
 	fileScenarios(r)
 	fileHistoryScenarios(r)
+	archiveBackendScenarios(r)
 	r.Finish()
 }
